@@ -244,6 +244,13 @@ def scen_c16(r):
         info['added'][info['project']] = g.emit(Op(30, r.choice([0, 5]), db, info['project']))
     if r.random() < 0.2:
         gen_api.gen_rejected(g, info, r.randint(1, 2))      # refused operations change nothing
+    if len(info['tables']) >= 2 and info['refs'] and r.random() < 0.15:
+        # a table is deleted from the database: its references stay attached (and keep their place in the database text)
+        gone = r.choice(info['tables'])
+        g.emit(Op(40, r.choice([0, 1]), db, gone))
+        info['tables'] = [t_ for t_ in info['tables'] if t_ != gone]
+        info['columns'] = {t_: c_ for t_, c_ in info['columns'].items() if t_ != gone}
+        info['indexes'] = {t_: c_ for t_, c_ in info['indexes'].items() if t_ != gone}
     twins = []
     for rf in info['refs'][:2]:
         op = g.ops[rf]
